@@ -16,110 +16,179 @@ the numeric content of the restricted grid.
 namespace EAO.C10
 open EAO.State
 
-/-- the one precondition the current code needs: a `ScaledAsset` called WITHOUT grid argument delegates to the
-    base asset's own `timegrid` attribute; the result is the wrapper's only if both sit on the same grid object
-    (see `scaled_noarg_not_pure` below for what happens otherwise) -/
-def SideCond (env : Env) (s : PyState) : Call → Prop
-  | .setup a none => ScaledSynced env s a
-  | _ => True
-
-/-- **C10 (slot logic).**  Current code (`rederive = true`): for every reachable state and every call, what the
-    builders read (`Result`) is what they should read (`setupPure`: own window / frequency / wacc of every
-    asset involved, structured assets' inner windows clipped from the ORIGINAL inner windows). -/
-theorem setup_pure (env : Env) (s : PyState) (hs : Reachable true env s) (call : Call) (hS : SideCond env s call) :
-    (setupSt true env s call).2 = setupPure env (ownPtrs s) call := by
+/-- **C10 (slot logic).**  Current code (`current`: after 7e0d787 and 19afd7c): for every reachable state and EVERY call,
+    what the builders read (`Result`) is what they should read (`setupPure`): the own window / frequency / wacc of every
+    asset involved (structured assets' inner windows clipped from the ORIGINAL inner windows), on the grid the call names
+    or, without grid argument, on the grid the object itself was put on (`ownPtrs`).  No side condition is left. -/
+theorem setup_pure (env : Env) (s : PyState) (hs : Reachable current env s) (call : Call) :
+    (setupSt current env s call).2 = setupPure env (ownPtrs s) call := by
   obtain ⟨calls, rfl⟩ := hs
-  have hI : Inv env (run true env (init env) calls) := run_inv true env calls _ (inv_init env)
+  have hI : Inv env (run current env (init env) calls) := run_inv current env calls _ (inv_init env)
   cases call with
   | setTimegrid a g => simp [setupSt, setupPure]
   | setup a arg =>
     cases arg with
-    | some g => simpa [setupSt, setupPure] using setupAsset_arg true env _ a g hI
+    | some g => simpa [setupSt, setupPure] using setupAsset_arg current env _ a g hI
     | none =>
-      have := setupAsset_noarg env _ a hI hS
-      simp only [setupSt, setupPure, ownPtrs]
+      have := setupAsset_noarg env _ a hI
+      simp only [setupSt, setupPure]
       rw [this]
-      cases ((run true env (init env) calls).assets a).grid <;> rfl
-  | setupPortfolio arg => exact (setupPortfolioSt_eq true env _ arg hI).1
+      cases ownGrid env (ownPtrs (run current env (init env) calls)) a <;> rfl
+  | setupSub a i arg => exact setupSubSt_eq env _ a i arg hI
+  | setupPortfolio arg => exact (setupPortfolioSt_eq current env _ arg hI).1
+  | setupSplit g tmp =>
+    have h := (setupIntervals_eq current env tmp _ hI).1
+    simp only [setupSt, setupPure]
+    rcases hsi : setupIntervals current env (run current env (init env) calls) tmp with ⟨s1, r⟩
+    rw [hsi] at h
+    simp only at h
+    subst h
+    rfl
   | dcf a => rfl
   | fillLevel a =>
     simp only [setupSt, setupPure, ownPtrs]
-    cases ((run true env (init env) calls).assets a).grid <;> rfl
+    cases ((run current env (init env) calls).assets a).grid <;> rfl
   | makeSlp g t =>
-    have hI1 : Inv env { (run true env (init env) calls) with
-        grids := writeRestricted (writeRestricted (run true env (init env) calls).grids g (some t, none, none)) g (none, some t, none) } := hI
-    have := (setupPortfolioSt_eq true env _ (some g) hI1).1
+    have hI1 : Inv env { (run current env (init env) calls) with
+        grids := writeRestricted (writeRestricted (run current env (init env) calls).grids g (some t, none, none)) g (none, some t, none) } := hI
+    have := (setupPortfolioSt_eq current env _ (some g) hI1).1
     simp only [setupSt, setupPure] at this ⊢
     rw [this]
     rfl
 
-/-- a set-up WITH grid argument never depended on the history, before and after the fix (any `rederive`),
+/-- a set-up WITH grid argument never depended on the history, in every code version,
     for plain, scaled and structured assets alike -/
-theorem setup_pure_with_grid (rd : Bool) (env : Env) (s : PyState) (hs : Reachable rd env s) (a g : Nat) :
-    (setupSt rd env s (.setup a (some g))).2 = .ok (pureAsset (env.asset a) g) := by
+theorem setup_pure_with_grid (v : Version) (env : Env) (s : PyState) (hs : Reachable v env s) (a g : Nat) :
+    (setupSt v env s (.setup a (some g))).2 = .ok (pureAsset (env.asset a) g) := by
   obtain ⟨calls, rfl⟩ := hs
-  exact setupAsset_arg rd env _ a g (run_inv rd env calls _ (inv_init env))
+  exact setupAsset_arg v env _ a g (run_inv v env calls _ (inv_init env))
 
 /-- the same for a portfolio set-up: the problem of every asset is built from its own data although all assets
     write into the SAME grid object one after the other -/
-theorem setup_pure_portfolio (rd : Bool) (env : Env) (s : PyState) (hs : Reachable rd env s) (g : Nat) :
-    (setupSt rd env s (.setupPortfolio (some g))).2 = .ok ((List.range env.length).flatMap fun a => pureAsset (env.asset a) g) := by
+theorem setup_pure_portfolio (v : Version) (env : Env) (s : PyState) (hs : Reachable v env s) (g : Nat) :
+    (setupSt v env s (.setupPortfolio (some g))).2 = .ok ((List.range env.length).flatMap fun a => pureAsset (env.asset a) g) := by
   obtain ⟨calls, rfl⟩ := hs
-  have := (setupPortfolioSt_eq rd env _ (some g) (run_inv rd env calls _ (inv_init env))).1
+  have := (setupPortfolioSt_eq v env _ (some g) (run_inv v env calls _ (inv_init env))).1
   simpa [setupSt, setupPure] using this
 
+/-- and for a split set-up: every interval problem of every asset is built from the asset's own data on the interval grid -/
+theorem setup_pure_split (v : Version) (env : Env) (s : PyState) (hs : Reachable v env s) (g : Nat) (tmp : List Nat) :
+    (setupSt v env s (.setupSplit g tmp)).2
+      = .ok (tmp.flatMap fun t => (List.range env.length).flatMap fun a => pureAsset (env.asset a) t) := by
+  obtain ⟨calls, rfl⟩ := hs
+  have h := (setupIntervals_eq v env tmp _ (run_inv v env calls _ (inv_init env))).1
+  simp only [setupSt]
+  rcases hsi : setupIntervals v env (run v env (init env) calls) tmp with ⟨s1, r⟩
+  rw [hsi] at h
+  simp only at h
+  subst h
+  rfl
+
 /-- the windows of wrapped assets survive every history (`finally:` in `StructuredAsset.setup_optim_problem`) -/
-theorem inner_windows_restored (rd : Bool) (env : Env) (s : PyState) (hs : Reachable rd env s) (a : Nat) :
+theorem inner_windows_restored (v : Version) (env : Env) (s : PyState) (hs : Reachable v env s) (a : Nat) :
     (s.assets a).sub.map win = (env.asset a).subs.map pwin := by
   obtain ⟨calls, rfl⟩ := hs
-  exact run_inv rd env calls _ (inv_init env) a
+  exact run_inv v env calls _ (inv_init env) a
 
 /-! ### why the fix 7e0d787 matters: without re-derivation the statement is false -/
 
 def envTwo : Env := [.plain { start := some 0, stop := some 4 }, .plain { start := some 5, stop := some 9, wacc := 1 }]
 
-/-- pre-fix behaviour (`rederive = false`): asset 0 and asset 1 are set up on the same grid object 7, then asset 0
+/-- behaviour before 7e0d787 (`rederive = false`): asset 0 and asset 1 are set up on the same grid object 7, then asset 0
     is set up again WITHOUT grid argument: its builder reads the window and discount factors of asset 1. -/
 theorem setup_not_pure_without_rederive :
-    ¬ (∀ (env : Env) (s : PyState), Reachable false env s → ∀ call, SideCond env s call →
-        (setupSt false env s call).2 = setupPure env (ownPtrs s) call) := by
+    ¬ (∀ (env : Env) (s : PyState), Reachable { rederive := false } env s → ∀ call,
+        (setupSt { rederive := false } env s call).2 = setupPure env (ownPtrs s) call) := by
   intro h
-  have := h envTwo _ ⟨[.setup 0 (some 7), .setup 1 (some 7)], rfl⟩ (.setup 0 none) trivial
+  have := h envTwo _ ⟨[.setup 0 (some 7), .setup 1 (some 7)], rfl⟩ (.setup 0 none)
   revert this
   decide
 
-example : (setupSt false envTwo (run false envTwo (init envTwo) [.setup 0 (some 7), .setup 1 (some 7)]) (.setup 0 none)).2
+example : (setupSt { rederive := false } envTwo (run { rederive := false } envTwo (init envTwo) [.setup 0 (some 7), .setup 1 (some 7)]) (.setup 0 none)).2
     = .ok [{ grid := 7, restricted := some (some 5, some 9, none), disc := some 1 }] := by decide +kernel
-example : (setupSt true envTwo (run true envTwo (init envTwo) [.setup 0 (some 7), .setup 1 (some 7)]) (.setup 0 none)).2
+example : (setupSt current envTwo (run current envTwo (init envTwo) [.setup 0 (some 7), .setup 1 (some 7)]) (.setup 0 none)).2
     = .ok [{ grid := 7, restricted := some (some 0, some 4, none), disc := some 0 }] := by decide +kernel
 
-/-! ### what is still not pure in the current code: `ScaledAsset` without grid argument -/
+/-! ### why the fix 19afd7c matters: `ScaledAsset` without grid argument (former finding H2) -/
 
 def envScaled : Env := [.scaled { start := some 0 } { stop := some 9 }]
 
-/-- current code: `sca.set_timegrid(tg)` then `sca.setup_optim_problem(prices)` raises (the base asset has no grid) -/
-theorem scaled_noarg_raises :
-    (setupSt true envScaled (run true envScaled (init envScaled) [.setTimegrid 0 3]) (.setup 0 none)).2 = .error .noGrid
-    ∧ setupPure envScaled (ownPtrs (run true envScaled (init envScaled) [.setTimegrid 0 3])) (.setup 0 none)
-        = .ok (pureAsset (envScaled.asset 0) 3) := by
-  decide
-
-/-- current code: set-up on grid 1, `sca.set_timegrid(grid 2)`, set-up without grid argument: built on grid 1.
-    So `SideCond` cannot be dropped from `setup_pure`. -/
-theorem scaled_noarg_not_pure :
-    ¬ (∀ (env : Env) (s : PyState), Reachable true env s → ∀ call,
-        (setupSt true env s call).2 = setupPure env (ownPtrs s) call) := by
+/-- behaviour before 19afd7c (`scaledOwnGrid = false`): set-up on grid 1, `sca.set_timegrid(grid 2)`, set-up without grid
+    argument: built on grid 1, the grid the BASE asset still sits on. -/
+theorem scaled_noarg_not_pure_before_fix :
+    ¬ (∀ (env : Env) (s : PyState), Reachable { scaledOwnGrid := false } env s → ∀ call,
+        (setupSt { scaledOwnGrid := false } env s call).2 = setupPure env (ownPtrs s) call) := by
   intro h
   have := h envScaled _ ⟨[.setup 0 (some 1), .setTimegrid 0 2], rfl⟩ (.setup 0 none)
   revert this
   decide
 
-/- TARGET (not proved, time): `ScaledSynced` holds in every state reached by a history without `setTimegrid` on a scaled
-   wrapper:  `(∀ c ∈ calls, ∀ a g, c = .setTimegrid a g → ∀ p b, env.asset a ≠ .scaled p b) →
-              ∀ a, ScaledSynced env (run true env (init env) calls) a`
-   (invariant: base pointer = wrapper pointer; kept by `setupAsset` on a scaled asset in all three branches, untouched by the
-   other calls).  Not covered by the model at all: `setup_split_optim_problem` restoring the full grid for top-level assets
-   only (finding H3), which breaks the same invariant in the real code. -/
+/-- before 19afd7c: `sca.set_timegrid(tg)` then `sca.setup_optim_problem(prices)` raised (the base asset has no grid) ... -/
+example : (setupSt { scaledOwnGrid := false } envScaled (run { scaledOwnGrid := false } envScaled (init envScaled) [.setTimegrid 0 3]) (.setup 0 none)).2
+    = .error .noGrid := by decide
+/-- ... now it builds both problems on grid 3 -/
+example : (setupSt current envScaled (run current envScaled (init envScaled) [.setTimegrid 0 3]) (.setup 0 none)).2
+    = .ok (pureAsset (envScaled.asset 0) 3) := by decide +kernel
+example : (setupSt current envScaled (run current envScaled (init envScaled) [.setup 0 (some 1), .setTimegrid 0 2]) (.setup 0 none)).2
+    = .ok (pureAsset (envScaled.asset 0) 2) := by decide +kernel
+
+/-! ### known finding H3: a split set-up leaves WRAPPED assets on the grid of the last interval
+
+`setup_pure` takes the objects' own grid attributes as input.  What it cannot say is that these attributes are the ones
+the user's calls named: `setup_split_optim_problem(prices, tg, ...)` puts the portfolio and its TOP-LEVEL assets back on `tg`,
+the assets wrapped by a scaled / structured asset stay on the temporary grid of the last interval. -/
+
+instance (env : Env) (s : PyState) (g : Nat) : Decidable (AllOn env s g) := by
+  unfold AllOn; exact inferInstance
+
+/-- after a plain portfolio set-up with grid argument the portfolio, every asset and every WRAPPED asset sit on that grid,
+    in every reachable state and every code version (the pointer part of "same problem no matter what was set up before") -/
+theorem portfolio_setup_all_on (v : Version) (env : Env) (s : PyState) (hs : Reachable v env s) (g : Nat) :
+    AllOn env (setupSt v env s (.setupPortfolio (some g))).1 g := by
+  obtain ⟨calls, rfl⟩ := hs
+  have h := setupAll_on v env g (List.range env.length) { (run v env (init env) calls) with pf := some g }
+    (run_inv v env calls _ (inv_init env))
+  refine ⟨by simpa [setupSt, setupPortfolioSt] using h.1, ?_⟩
+  intro a ha
+  have := h.2 a (Or.inl (List.mem_range.2 ha))
+  simpa [setupSt, setupPortfolioSt, On] using this
+
+def envSplit : Env := [.scaled {} { stop := some 9 }, .plain {}]
+
+/-- a plain portfolio set-up on grid 0 leaves the portfolio, all assets and all wrapped assets on grid 0 ... -/
+example : AllOn envSplit (run current envSplit (init envSplit) [.setupPortfolio (some 0)]) 0 := by decide
+/-- ... a split set-up on grid 0 with interval grids 10, 11 does not: -/
+theorem split_leaves_wrapped_assets_on_interval_grid :
+    ¬ (∀ (env : Env) (s : PyState) (g : Nat) (tmp : List Nat), Reachable current env s →
+        AllOn env (setupSt current env s (.setupSplit g tmp)).1 g) := by
+  intro h
+  have := h envSplit _ 0 [10, 11] ⟨[], rfl⟩
+  revert this
+  decide
+
+/-- the wrapper is back on grid 0, its base asset sits on interval grid 11 -/
+example : (ownPtrs (run current envSplit (init envSplit) [.setupSplit 0 [10, 11]])).asset 0 = some 0
+    ∧ (ownPtrs (run current envSplit (init envSplit) [.setupSplit 0 [10, 11]])).sub 0 0 = some 11 := by decide
+
+/-- consequence (the known finding): the same direct no-argument set-up of the wrapped asset gives different problems after
+    a plain portfolio set-up and after a split set-up of the same portfolio on the same grid (grid 0 vs the LAST INTERVAL's
+    grid 11, see the two examples below): the result depends on which kind of set-up ran before. -/
+theorem wrapped_noarg_after_split_not_pure :
+    (setupSt current envSplit (run current envSplit (init envSplit) [.setupPortfolio (some 0)]) (.setupSub 0 0 none)).2
+      ≠ (setupSt current envSplit (run current envSplit (init envSplit) [.setupSplit 0 [10, 11]]) (.setupSub 0 0 none)).2 := by
+  decide
+
+example : (setupSt current envSplit (run current envSplit (init envSplit) [.setupPortfolio (some 0)]) (.setupSub 0 0 none)).2
+    = .ok [usedOf 0 none (some 9) none 0] := by decide +kernel
+example : (setupSt current envSplit (run current envSplit (init envSplit) [.setupSplit 0 [10, 11]]) (.setupSub 0 0 none)).2
+    = .ok [usedOf 11 none (some 9) none 0] := by decide +kernel
+
+/-- the TOP-LEVEL call is fine since 19afd7c: after the split the scaled asset itself builds on grid 0 again -/
+example : (setupSt current envSplit (run current envSplit (init envSplit) [.setupSplit 0 [10, 11]]) (.setup 0 none)).2
+    = .ok (pureAsset (envSplit.asset 0) 0) := by decide +kernel
+/-- before 19afd7c it built on the interval grid 11 (H2 and H3 together) -/
+example : (setupSt { scaledOwnGrid := false } envSplit (run { scaledOwnGrid := false } envSplit (init envSplit) [.setupSplit 0 [10, 11]]) (.setup 0 none)).2
+    = .ok (pureAsset (envSplit.asset 0) 11) := by decide +kernel
 
 /-! ### interval data: the normal form evaluates like the raw form -/
 
